@@ -168,4 +168,24 @@ def jobs(tier, seed, prop):
                    functions=["%s:%d %s" % (f["file"], f["line"], f["name"]) for f in fns], info=minfo,
                    bounded="chains <= 3, dimensions <= 2",
                    label="TasmanianDREAM::setState / setPDFvalues / saveStateHistory bodies against the contracts the SampleDREAM stubs assume"))
+    # forwarding overloads: every call of SampleDREAM inside a SampleDREAM<form> overload passes its own sampling form on (an omitted template argument is the default of the primary template)
+    ftext = X.strip_comments(X.read_source("DREAM/tsgDreamSample.hpp"))
+    heads = list(re.finditer(r'template<\s*TypeSamplingForm\s+form\s*(?:=\s*(\w+)\s*)?>\s*void\s+SampleDREAM\s*\(', ftext))
+    if len(heads) < 2:
+        raise X.ExtractionBreak("expected the primary SampleDREAM template and at least one forwarding overload, found %d" % len(heads))
+    default_form = heads[0].group(1) or "regform"
+    sites = []
+    for hm in heads[1:]:
+        k = ftext.index("{", X.match_close(ftext, hm.end() - 1, "(", ")"))
+        e = X.match_close(ftext, k)
+        for cm in re.finditer(r'(?<![\w:.>])SampleDREAM\s*(?:<\s*([^<>]*?)\s*>)?\s*\(', ftext[k:e]):
+            sites.append((ftext.count("\n", 0, k + cm.start()) + 1, cm.group(1) if cm.group(1) is not None else default_form))
+    if not sites:
+        raise X.ExtractionBreak("no forwarding call of SampleDREAM found")
+    fsrc = pre + "".join('#line %d "%s"\nstatic int fwd_%d(int form){ return (int)(%s); }\n' % (ln, X.REPO + "/DREAM/tsgDreamSample.hpp", i, arg) for i, (ln, arg) in enumerate(sites))
+    fsrc += "void h_forwarding(void){ int form = nondet_int(); __CPROVER_assume(form == regform || form == logform);\n" + "".join(
+        '  __CPROVER_assert(fwd_%d(form) == form, "C15 forwarding overload, call %d: the sampling form of the caller is the form of the call (regular and logarithmic acceptance tests are not mixed)");\n' % (i, i) for i in range(len(sites))) + '  __CPROVER_assert(0, "VACUITY-CANARY");\n}\n'
+    out.append(Job("dream.forwarding", fsrc, "h_forwarding", timeout=60, functions=["DREAM/tsgDreamSample.hpp:%d SampleDREAM<form> forwarding call" % ln for ln, _ in sites], info={"functions": [], "rules_fired": {"R-expr-selector": len(sites)}},
+                   assumed=["only the template argument of each forwarding call is extracted (expression selector); an omitted argument is the default `%s` of the primary template" % default_form],
+                   label="SampleDREAM overloads forward their sampling form"))
     return out
